@@ -106,7 +106,10 @@ def replace_center(parameters, key):
     except KeyError:
         pass
     else:
-        parameters[prefix + 'center'][index] = val
+        # (the center may be a tuple, which cannot be assigned to)
+        center = list(parameters[prefix + 'center'])
+        center[index] = val
+        parameters[prefix + 'center'] = center
 
 
 def make_uniform(guesses, key):
